@@ -73,44 +73,53 @@ func (p DictPattern) Bind(ctx context.Context, local Scope, value Value) (contex
 
 	result := EmptyScope
 	m := dict.m
-	for _, entry := range p.entries {
-		var dictValue Value
-		if _, is := entry.pattern.pattern.(ExtraElementPattern); is {
-			if m.IsEmpty() {
-				dictValue = None
-			} else {
-				dictValue = Dict{m: m}
-			}
-		} else {
-			key := entry.at
-			if lit, is := key.(LiteralExpr); is {
-				key = lit.Literal()
-			}
-
-			dictExpr, found := m.Get(key.(Value))
-			if !found {
-				if entry.pattern.fallback == nil {
-					return ctx, EmptyScope, fmt.Errorf("couldn't find %s in dict %s", key, m)
-				}
-				var err error
-				dictValue, err = entry.pattern.fallback.Eval(ctx, local)
-				if err != nil {
-					return ctx, EmptyScope, err
-				}
-			} else {
-				dictValue = dictExpr.(Value)
-				m = m.Without(key.(Value))
-			}
-		}
-
+	var extra *DictPatternEntry
+	bind := func(entry DictPatternEntry, dictValue Value) error {
 		var scope Scope
 		var err error
 		ctx, scope, err = entry.pattern.pattern.Bind(ctx, local, dictValue)
 		if err != nil {
-			return ctx, EmptyScope, err
+			return err
 		}
 		result, err = result.MatchedUpdate(scope)
-		if err != nil {
+		return err
+	}
+	for i, entry := range p.entries {
+		var dictValue Value
+		if _, is := entry.pattern.pattern.(ExtraElementPattern); is {
+			// ...rest stands for what is left after ALL keyed entries, wherever it is written
+			extra = &p.entries[i]
+			continue
+		}
+		key := entry.at
+		if lit, is := key.(LiteralExpr); is {
+			key = lit.Literal()
+		}
+
+		dictExpr, found := m.Get(key.(Value))
+		if !found {
+			if entry.pattern.fallback == nil {
+				return ctx, EmptyScope, fmt.Errorf("couldn't find %s in dict %s", key, m)
+			}
+			var err error
+			dictValue, err = entry.pattern.fallback.Eval(ctx, local)
+			if err != nil {
+				return ctx, EmptyScope, err
+			}
+		} else {
+			dictValue = dictExpr.(Value)
+			m = m.Without(key.(Value))
+		}
+		if err := bind(entry, dictValue); err != nil {
+			return ctx, EmptyScope, err
+		}
+	}
+	if extra != nil {
+		var dictValue Value = None
+		if !m.IsEmpty() {
+			dictValue = Dict{m: m}
+		}
+		if err := bind(*extra, dictValue); err != nil {
 			return ctx, EmptyScope, err
 		}
 	}
